@@ -25,6 +25,8 @@ Slot(s, k) == [name |-> IF k <= s.npos THEN <<"p", k>> ELSE <<"k", k - s.npos>>,
                kwonly |-> k > s.npos]
 SlotsOf(s) == [k \in 1..(s.npos + s.nkw) |-> Slot(s, k)]
 
+\* `prev` = the mode of an earlier sync_properties call in the same process from the same (unchanged) input file into some
+\* other output ("none" = no earlier call): the result must not depend on it (HistoryIndependent)
 Cases == {c \in [shape : Shapes, target : 1..6, input : InputKinds, mode : Modes] :
             /\ c.target <= c.shape.npos + c.shape.nkw
             /\ (c.mode = "eval" => c.input = "class_attr")}        \* eval reads a top-level name; the input kind is irrelevant then
@@ -32,11 +34,12 @@ Cases == {c \in [shape : Shapes, target : 1..6, input : InputKinds, mode : Modes
 SrcName == <<"src", 0>>
 SrcAnn(mode) == CASE mode = "plain" -> <<"SrcT", 0>> [] mode = "wrap" -> <<"Wrap(SrcT)", 0>> [] mode = "eval" -> <<"Literal(values)", 0>>
 
-VARIABLES c, slots, input, pc
-vars == <<c, slots, input, pc>>
+VARIABLES c, prev, slots, input, pc
+vars == <<c, prev, slots, input, pc>>
 SE == INSTANCE SequencesExt
 CaseSeq == SE!SetToSeq(Cases)
 Init == /\ c \in {CaseSeq[k] : k \in {j \in 1..Len(CaseSeq) : j % NShards = Shard}}
+        /\ prev \in Modes \cup {"none"}
         /\ slots = SlotsOf(c.shape) /\ input = "original" /\ pc = "start"
 
 \* ---- named deviations (a class-attribute target is replaced wholesale by the input node) --------------------------------
@@ -51,7 +54,7 @@ SyncProp == /\ pc = "start"
                                                               !.def = IF ValueReplaced
                                                                       THEN (IF c.mode = "eval" THEN <<"none", 0>> ELSE <<"srcvalue", 0>>)
                                                                       ELSE @]]
-            /\ pc' = (IF FromParamInvalid THEN "raised" ELSE "done") /\ UNCHANGED <<c, input>>
+            /\ pc' = (IF FromParamInvalid THEN "raised" ELSE "done") /\ UNCHANGED <<c, prev, input>>
 Next == SyncProp
 Spec == Init /\ [][Next]_vars
 
@@ -60,10 +63,12 @@ OnlyTarget == pc = "done" => \A k \in 1..Len(slots) : k # c.target => slots[k] =
 DefaultsAligned == (pc = "done" /\ Fired = {}) => /\ Len(slots) = Len(Orig)
                                   /\ \A k \in 1..Len(slots) : slots[k].def = Orig[k].def /\ slots[k].kwonly = Orig[k].kwonly
 InputUntouched == input = "original"
+\* the post-state is a function of (shape, target, input, mode) alone
+HistoryIndependent == pc = "done" => slots = [SlotsOf(c.shape) EXCEPT ![c.target] = slots[c.target]]   \* `prev` occurs nowhere in the post-state
 TargetUpdated == pc = "done" => /\ slots[c.target].ann = SrcAnn(c.mode)
                                 /\ slots[c.target].name = (IF c.mode = "eval" THEN Orig[c.target].name ELSE SrcName)
 RECURSIVE SetToSeq(_)
 SetToSeq(S) == IF S = {} THEN <<>> ELSE LET x == CHOOSE x \in S : TRUE IN <<x>> \o SetToSeq(S \ {x})
-Dump == pc \in {"done", "raised"} => PrintT(ToJson([c |-> c, before |-> Orig, after |-> slots, raises |-> (pc = "raised"),
+Dump == pc \in {"done", "raised"} => PrintT(ToJson([c |-> [shape |-> c.shape, target |-> c.target, input |-> c.input, mode |-> c.mode, prev |-> prev], before |-> Orig, after |-> slots, raises |-> (pc = "raised"),
                                                     devs |-> SetToSeq(Fired)]))
 =====================================================================================
